@@ -551,122 +551,24 @@ Qed.
 Lemma first_read_size_bounds k0 clen : 0 <= clen -> 0 <= first_read_size k0 clen <= clen.
 Proof. intros H. unfold first_read_size. lia. Qed.
 
-(* the 200 fallback is the whole representation when nothing was cut off the first buffer *)
-Theorem plain_output_full i roff :
-  roff <= 0 \/ first_read_size (i_k0 i) (zlen (i_obj i)) <= roff ->
+(* a reply sent without range processing is the whole representation *)
+Theorem plain_output_full i :
   zlen (i_obj i) <= n_chunks (i_chunks i) ->
-  plain_output i roff = mkOut 200 (zlen (i_obj i)) None (i_ctype i) (RDone (i_obj i) false).
+  plain_output i = mkOut 200 (zlen (i_obj i)) None (i_ctype i) (RDone (i_obj i) false).
 Proof.
-  intros Hr Hn. unfold plain_output. f_equal.
+  intros Hn. unfold plain_output, first_buffer. f_equal.
   pose proof (first_read_size_bounds (i_k0 i) (zlen (i_obj i)) (zlen_nonneg _)) as Hb.
-  set (bs := first_read_size (i_k0 i) (zlen (i_obj i))) in *.
-  unfold first_buffer. destruct (0 <? roff) eqn:E.
-  - destruct Hr as [Hr|Hr]; [lia|]. destruct (bs <? roff) eqn:E2.
-    + rewrite <- (slice_zero (i_obj i) 0). apply run_plain_prefix; lia.
-    + replace (bs - roff) with 0 by lia. rewrite slice_zero. rewrite <- (slice_zero (i_obj i) 0). apply run_plain_prefix; lia.
-  - apply run_plain_prefix; lia.
+  apply run_plain_prefix; lia.
 Qed.
 
-(* ... and in general it is the advanced first buffer followed by the body from where the byte count says *)
-Theorem plain_output_shape i roff :
-  0 < roff < first_read_size (i_k0 i) (zlen (i_obj i)) ->
-  zlen (i_obj i) <= n_chunks (i_chunks i) ->
-  let bs := first_read_size (i_k0 i) (zlen (i_obj i)) in
-  o_body (plain_output i roff) =
-  RDone (rr_slice (i_obj i) roff (bs - roff) ++ rr_slice (i_obj i) (bs - roff) (zlen (i_obj i) - (bs - roff))) false.
+(* the first buffer squid hands over satisfies what pack_range_exact asks of it *)
+Lemma first_buffer_ok obj co k0 : first_ok obj co (first_buffer obj (first_read_size k0 (zlen obj))).
 Proof.
-  intros Hr Hn bs. unfold plain_output. cbn [o_body].
-  pose proof (first_read_size_bounds (i_k0 i) (zlen (i_obj i)) (zlen_nonneg _)) as Hb. fold bs in Hr, Hb.
-  unfold first_buffer. fold bs. destruct (0 <? roff) eqn:E; [|lia]. destruct (bs <? roff) eqn:E2; [lia|].
-  rewrite run_plain_shape by (try rewrite zlen_slice; lia). rewrite zlen_slice by lia. reflexivity.
-Qed.
-
-(* ================= lowestOffset(0) vs the first canonical offset ================= *)
-Lemma lof_zero_acc : forall raw, lowest_offset_from 0 0 raw = 0.
-Proof.
-  induction raw as [|[o l] r IH]; cbn [lowest_offset_from]; [reflexivity|].
-  unfold known_spec, unknown_pos in *. destruct (o >? -1) eqn:Eo; cbn [negb].
-  - destruct (o <? 0) eqn:E1; [lia|]. cbn [orb]. exact IH.
-  - destruct (l >? 0) eqn:E2; cbn [orb]; [reflexivity|]. destruct (l >? -1) eqn:E3; cbn [negb]; [|reflexivity].
-    assert (l = 0) by lia. subst l. cbn [Z.sub Z.opp Z.add Z.ltb Z.compare orb]. exact IH.
-Qed.
-
-Definition starts_at_zero (sp : rspec2) : Prop := known_spec (fst sp) = false \/ fst sp = 0.
-
-Lemma lof_has_zero : forall raw acc, acc = -1 \/ 0 <= acc ->
-  (exists sp, In sp raw /\ starts_at_zero sp) -> lowest_offset_from 0 acc raw = 0.
-Proof.
-  induction raw as [|[o l] r IH]; intros acc Hacc (sp & Hin & Hsp); [destruct Hin|].
-  cbn [lowest_offset_from]. unfold starts_at_zero, known_spec, unknown_pos in *.
-  destruct (o >? -1) eqn:Eo; cbn [negb].
-  - (* known offset *)
-    destruct Hin as [<-|Hin].
-    + destruct Hsp as [Hsp|Hsp]; cbn [fst] in Hsp; [rewrite Eo in Hsp; discriminate|]. subst o.
-      destruct ((0 <? acc) || negb (acc >? -1)) eqn:E; [apply lof_zero_acc|].
-      assert (acc = 0) by lia. subst acc. apply lof_zero_acc.
-    + apply IH; [|exists sp; split; assumption].
-      destruct ((o <? acc) || negb (acc >? -1)); lia.
-  - destruct (l >? 0) eqn:E2; cbn [orb]; [reflexivity|]. destruct (l >? -1) eqn:E3; cbn [negb]; [|reflexivity].
-    assert (l = 0) by lia. subst l. cbn [Z.sub Z.opp Z.add].
-    destruct ((0 <? acc) || negb (acc >? -1)) eqn:E; [apply lof_zero_acc|].
-    assert (acc = 0) by lia. subst acc. apply lof_zero_acc.
-Qed.
-
-Lemma spec_canonize_keeps_offset clen sp : known_spec (fst sp) = true ->
-  fst (fst (fst (spec_canonize clen sp))) = fst sp.
-Proof.
-  destruct sp as [o l]. cbn [fst]. intros Hk. unfold spec_canonize. rewrite Hk. cbn [negb].
-  destruct (negb (known_spec l)).
-  - destruct (rng_size_i64 (rng_intersection (0, clen) (o, clen))) as [l1 o1].
-    destruct (add64 o l1) as [e o2]. destruct (rng_size_i64 (rng_intersection (0, clen) (o, e))) as [l2 o3]. reflexivity.
-  - destruct (add64 o l) as [e o2]. destruct (rng_size_i64 (rng_intersection (0, clen) (o, e))) as [l2 o3]. reflexivity.
-Qed.
-
-Lemma canon_specs_origin clen : forall raw cs ub c, canon_specs clen raw = (cs, ub) -> In c cs ->
-  exists sp, In sp raw /\ c = fst (fst (spec_canonize clen sp)).
-Proof.
-  induction raw as [|sp r IH]; intros cs ub c H Hin; cbn [canon_specs] in H.
-  - inversion H; subst. destruct Hin.
-  - destruct (spec_canonize clen sp) as [[c0 good] o] eqn:Es. destruct (canon_specs clen r) as [cs' o'] eqn:Er.
-    inversion H; subst. destruct good.
-    + destruct Hin as [<-|Hin]; [exists sp; split; [now left|rewrite Es; reflexivity]|].
-      destruct (IH _ _ _ eq_refl Hin) as (sp' & Hin' & Hc). exists sp'. split; [now right|exact Hc].
-    + destruct (IH _ _ _ eq_refl Hin) as (sp' & Hin' & Hc). exists sp'. split; [now right|exact Hc].
-Qed.
-
-Lemma lowest_offset_zero clen raw cs ub c : canon_specs clen raw = (cs, ub) -> In c cs -> fst c = 0 ->
-  lowest_offset 0 raw = 0.
-Proof.
-  intros H Hin Hc. destruct (canon_specs_origin clen raw cs ub c H Hin) as (sp & Hsp & Heq).
-  unfold lowest_offset. apply lof_has_zero; [left; reflexivity|]. exists sp. split; [exact Hsp|].
-  unfold starts_at_zero. destruct (known_spec (fst sp)) eqn:Ek; [right|now left].
-  rewrite <- (spec_canonize_keeps_offset clen sp Ek). rewrite <- Heq. exact Hc.
-Qed.
-
-Lemma lof_nonneg : forall raw acc, acc = -1 \/ 0 <= acc -> 0 <= lowest_offset_from 0 acc raw.
-Proof.
-  induction raw as [|[o l] r IH]; intros acc Hacc; cbn [lowest_offset_from]; unfold known_spec, unknown_pos in *.
-  - destruct (acc >? -1) eqn:E; lia.
-  - destruct (o >? -1) eqn:Eo; cbn [negb].
-    + apply IH. destruct ((o <? acc) || negb (acc >? -1)); lia.
-    + destruct (l >? 0) eqn:E2; cbn [orb]; [lia|]. destruct (l >? -1) eqn:E3; cbn [negb]; [|lia].
-      apply IH. destruct ((0 - l <? acc) || negb (acc >? -1)); lia.
-Qed.
-
-(* the first buffer squid really hands over satisfies what pack_range_exact asks of it *)
-Lemma first_buffer_ok clen raw cs ub co cl r obj k0 : clen = zlen obj ->
-  canon_specs clen raw = (cs, ub) -> cs = (co, cl) :: r -> 0 <= co ->
-  first_ok obj co (first_buffer obj (lowest_offset 0 raw) (first_read_size k0 (zlen obj))).
-Proof.
-  intros Hclen Hcs Hcons Hco.
   pose proof (first_read_size_bounds k0 (zlen obj) (zlen_nonneg _)) as Hb.
   set (bs := first_read_size k0 (zlen obj)) in *. unfold first_ok, first_buffer.
-  destruct (0 <? lowest_offset 0 raw) eqn:E.
-  - destruct (Z.eq_dec co 0) as [Hz|Hnz]; [|right; left; lia].
-    rewrite (lowest_offset_zero clen raw cs ub (co, cl) Hcs) in E; [discriminate|rewrite Hcons; now left|exact Hz].
-  - destruct (Z.eq_dec bs 0) as [Hz|Hnz].
-    + left. rewrite Hz, slice_zero. reflexivity.
-    + right. right. exists bs. split; [lia|reflexivity].
+  destruct (Z.eq_dec bs 0) as [Hz|Hnz].
+  - left. rewrite Hz, slice_zero. reflexivity.
+  - right. right. exists bs. split; [lia|reflexivity].
 Qed.
 
 (* ================= buildRangeHeader: when is it a 206 ================= *)
@@ -724,16 +626,16 @@ Theorem reply_run_spec i value specs :
                           (match cs with [c] => Some (cont_range_value c (zlen (i_obj i))) | _ => None end)
                           (match cs with [c] => i_ctype i | _ => Some (multipart_ctype (boundary_str (i_key i))) end)
                           (RDone (expected_body (reply_env i cs) (i_obj i) cs) false))
-  \/ (exists roff, reply_run i = plain_output i roff /\ (roff = 0 \/ roff = lowest_offset 0 (map repr specs))).
+  \/ reply_run i = plain_output i.
 Proof.
   intros Hrange Hspecs Hmax Hn. set (clen := zlen (i_obj i)) in *.
   assert (Hclen : -1 <= clen <= int64_max) by (pose proof (zlen_nonneg (i_obj i)); unfold clen; lia).
   unfold reply_run. rewrite Hrange. rewrite range_parse_spec, Hspecs. cbn [fst]. set (raw := map repr specs).
   destruct (negb (i_hit i) && negb (negb (offset_limit_exceeded raw (i_limit i))) && (1 <? Z.of_nat (length raw))).
-  { right. exists 0. split; [reflexivity|now left]. }
+  { right. reflexivity. }
   match goal with |- context [build_range_header ?b raw] => set (bb := b) end.
   destruct (build_range_header bb raw) as [cs|why ub] eqn:Eb.
-  2: { right. exists (lowest_offset 0 raw). split; [reflexivity|now right]. }
+  2: { right. reflexivity. }
   left. apply build_range_header_partial in Eb.
   destruct Eb as (_ & _ & _ & _ & _ & _ & Hcanon & Hcomplex & _). cbn [b_content_length bb] in Hcanon.
   destruct (header_specs_valid value specs Hspecs) as (Hvalid & _).
@@ -752,9 +654,9 @@ Proof.
   assert (Hsingle : single_ok e r).
   { intros Hm. rewrite Hmp in Hm. destruct r; [reflexivity|discriminate]. }
   assert (Hco : 0 <= co) by (cbn [chain fst] in Hchain; lia).
-  set (data0 := first_buffer (i_obj i) (lowest_offset 0 raw) (first_read_size (i_k0 i) clen)).
+  set (data0 := first_buffer (i_obj i) (first_read_size (i_k0 i) clen)).
   assert (Hfirst : first_ok (i_obj i) co data0).
-  { unfold data0, clen. eapply first_buffer_ok; [reflexivity|exact Hcs0|reflexivity|exact Hco]. }
+  { unfold data0, clen. apply first_buffer_ok. }
   assert (Hsum : cl + sum_len r <= n_chunks (i_chunks i)).
   { destruct (chain_sum_le clen _ 0 Hchain) as [Hs|Hs]; [cbn [sum_len snd] in Hs; lia|discriminate]. }
   pose proof (run_partial_exact e (i_obj i) co cl r data0 (i_chunks i) eq_refl Hsingle Hchain Hfirst Hsum) as Hbody.
@@ -764,7 +666,7 @@ Proof.
                  = (zlen (expected_body e (i_obj i) ((co, cl) :: r)), RDone (expected_body e (i_obj i) ((co, cl) :: r)) false)).
   { rewrite (surjective_pairing (run_partial e (i_obj i) ((co, cl) :: r) data0 (i_chunks i))). rewrite Hacl, Hbody. reflexivity. }
   change (mkEnv (1 <? Z.of_nat (length ((co, cl) :: r))) (zlen (i_obj i)) (i_ctype i) (boundary_str (i_key i))) with e.
-  change (first_buffer (i_obj i) (lowest_offset 0 raw) (first_read_size (i_k0 i) (zlen (i_obj i)))) with data0.
+  change (first_buffer (i_obj i) (first_read_size (i_k0 i) (zlen (i_obj i)))) with data0.
   unfold rspec2 in *. rewrite Hrun.
   change (1 <? Z.of_nat (length ((co, cl) :: r))) with (e_multipart e). rewrite Hmp.
   destruct r; reflexivity.
@@ -781,10 +683,10 @@ Proof.
   match goal with |- context [run_partial ?a ?b ?c ?d ?e] => destruct (run_partial a b c d e) end. reflexivity.
 Qed.
 
-Lemma reply_no_range i : i_range i = None -> reply_run i = plain_output i 0.
+Lemma reply_no_range i : i_range i = None -> reply_run i = plain_output i.
 Proof. intros H. unfold reply_run. rewrite H. reflexivity. Qed.
 
-Lemma reply_invalid_range i value : i_range i = Some value -> header_specs value = None -> reply_run i = plain_output i 0.
+Lemma reply_invalid_range i value : i_range i = Some value -> header_specs value = None -> reply_run i = plain_output i.
 Proof. intros H Hs. unfold reply_run. rewrite H, range_parse_spec, Hs. reflexivity. Qed.
 
 (* no Range, or a Range that has to be ignored: the whole representation, always *)
@@ -794,31 +696,33 @@ Theorem reply_without_usable_range i :
   reply_run i = mkOut 200 (zlen (i_obj i)) None (i_ctype i) (RDone (i_obj i) false).
 Proof.
   intros [H|(value & H & Hs)] Hn; [rewrite (reply_no_range i H)|rewrite (reply_invalid_range i value H Hs)];
-    apply plain_output_full; try assumption; now left.
+    apply plain_output_full; assumption.
 Qed.
 
-Lemma lowest_offset_nonneg raw : 0 <= lowest_offset 0 raw.
-Proof. apply lof_nonneg. now left. Qed.
-
-(* the fallback 200 is complete when the first body buffer was not cut *)
-Theorem reply_200_full_partial i value specs :
+(* "otherwise the complete representation with 200": every 200 answer to a valid Range header *)
+Theorem reply_200_full i value specs :
   i_range i = Some value -> header_specs value = Some specs ->
   zlen (i_obj i) <= int64_max -> zlen (i_obj i) <= n_chunks (i_chunks i) ->
   o_status (reply_run i) = 200 ->
-  i_k0 i = 0%N \/ lowest_offset 0 (map repr specs) = 0 \/
-    first_read_size (i_k0 i) (zlen (i_obj i)) <= lowest_offset 0 (map repr specs) ->
   reply_run i = mkOut 200 (zlen (i_obj i)) None (i_ctype i) (RDone (i_obj i) false).
 Proof.
-  intros Hr Hs Hmax Hn Hst Hcond.
-  destruct (reply_run_spec i value specs Hr Hs Hmax Hn) as [(cs & _ & _ & _ & Heq)|(roff & Heq & Hroff)].
+  intros Hr Hs Hmax Hn Hst.
+  destruct (reply_run_spec i value specs Hr Hs Hmax Hn) as [(cs & _ & _ & _ & Heq)|Heq].
   - rewrite Heq in Hst. discriminate.
-  - rewrite Heq. apply plain_output_full; [|exact Hn].
-    destruct Hroff as [Hro|Hro]; rewrite Hro; [now left|].
-    pose proof (lowest_offset_nonneg (map repr specs)).
-    destruct Hcond as [Hk|[Hz|Hle]].
-    + right. unfold first_read_size. rewrite Hk. pose proof (zlen_nonneg (i_obj i)). cbn [Z.of_N]. lia.
-    + left. lia.
-    + now right.
+  - rewrite Heq. apply plain_output_full. exact Hn.
+Qed.
+
+(* ... and every 200 answer at all *)
+Theorem every_200_is_full i :
+  zlen (i_obj i) <= int64_max -> zlen (i_obj i) <= n_chunks (i_chunks i) ->
+  o_status (reply_run i) = 200 ->
+  reply_run i = mkOut 200 (zlen (i_obj i)) None (i_ctype i) (RDone (i_obj i) false).
+Proof.
+  intros Hmax Hn Hst. destruct (i_range i) as [value|] eqn:Hr.
+  - destruct (header_specs value) as [specs|] eqn:Hs.
+    + exact (reply_200_full i value specs Hr Hs Hmax Hn Hst).
+    + apply reply_without_usable_range; [right; exists value; split; assumption|exact Hn].
+  - apply reply_without_usable_range; [now left|exact Hn].
 Qed.
 
 (* 416 is never sent; when no requested range is satisfiable the answer is 200 *)
@@ -829,7 +733,7 @@ Theorem reply_unsatisfiable_is_200 i value specs :
   o_status (reply_run i) = 200.
 Proof.
   intros Hr Hs Hmax Hn Hnone.
-  destruct (reply_run_spec i value specs Hr Hs Hmax Hn) as [(cs & Hco & Hne & Hch & Heq)|(roff & Heq & _)].
+  destruct (reply_run_spec i value specs Hr Hs Hmax Hn) as [(cs & Hco & Hne & Hch & Heq)|Heq].
   - exfalso. destruct cs as [|c r]; [contradiction|].
     cbn [chain] in Hch. destruct Hch as (H1 & H2 & H3 & _).
     destruct (proj1 (canon_of_union _ _ _ Hco (fst c))) as (s & Hin & Hw).
@@ -838,30 +742,18 @@ Proof.
   - rewrite Heq. reflexivity.
 Qed.
 
-(* ================= the refutation: a disk hit whose Range is ignored late ================= *)
-(* a 10-byte representation 0..9 read from disk (the first read returns all of it), Range: bytes=5-6,2-3 *)
-Definition refute_input : rinput :=
+(* ================= the former counterexample (disk hit whose Range is ignored late) ================= *)
+(* a 10-byte representation 0..9 read from disk (the first read returns all of it), Range: bytes=5-6,2-3:
+   before /repo 414e85a the 200 body was 2..9 8 9 *)
+Definition late_ignore_input : rinput :=
   mkIn (Some [98;121;116;101;115;61;53;45;54;44;50;45;51]%N) [0;1;2;3;4;5;6;7;8;9]%N None [75]%N true 0 None None 4096
        [4096;4096;4096;4096;4096;4096;4096;4096;4096;4096]%N.
 
-Lemma refute_input_facts :
+Lemma late_ignore_input_facts :
   header_specs [98;121;116;101;115;61;53;45;54;44;50;45;51]%N = Some [RRange 5 6; RRange 2 3] /\
-  zlen (i_obj refute_input) <= n_chunks (i_chunks refute_input) /\
-  reply_run refute_input = mkOut 200 10 None None (RDone [2;3;4;5;6;7;8;9;8;9]%N false).
+  zlen (i_obj late_ignore_input) <= n_chunks (i_chunks late_ignore_input) /\
+  reply_run late_ignore_input = mkOut 200 10 None None (RDone [0;1;2;3;4;5;6;7;8;9]%N false).
 Proof. vm_compute. repeat split; intros H; discriminate H. Qed.
-
-Theorem fallback_200_is_full_refuted :
-  exists i value specs, i_range i = Some value /\ header_specs value = Some specs /\
-    zlen (i_obj i) <= int64_max /\ zlen (i_obj i) <= n_chunks (i_chunks i) /\
-    o_status (reply_run i) = 200 /\ o_content_length (reply_run i) = zlen (i_obj i) /\
-    o_body (reply_run i) <> RDone (i_obj i) false.
-Proof.
-  destruct refute_input_facts as (H1 & H2 & H3).
-  exists refute_input, [98;121;116;101;115;61;53;45;54;44;50;45;51]%N, [RRange 5 6; RRange 2 3].
-  rewrite H3. repeat split; try assumption; try reflexivity.
-  - vm_compute. intros H; discriminate H.
-  - cbn [o_body i_obj refute_input]. intros H. inversion H.
-Qed.
 
 (* ================= the Content-Range text announces the slice it accompanies ================= *)
 Lemma dec_value_snoc ds d : dec_value (ds ++ [d]) = dec_value ds * 10 + (Z.of_N d - 48).
